@@ -8,11 +8,18 @@ def valid_pub(curve, b):
         return 1 if ecref.SECP256K1.deser(b) is not None and len(b) in (33, 65) else 0
     if curve == 1:
         return 1 if ecref.NIST256P1.deser(b) is not None else 0
-    if curve == 2:
+    if curve in (2, 3):
         if len(b) == 33 and b[0] == 0:
             b = b[1:]
         return 1 if len(b) == 32 and ecref.ED25519.deser(b, canonical=False) is not None else 0
+    if curve == 4:
+        return 1 if len(b) == 32 else 0
     return 0
 
 
-ORACLES = {"valid_pub": valid_pub}
+def crc16_xmodem(b):
+    import binascii
+    return binascii.crc_hqx(bytes(b), 0).to_bytes(2, "big")
+
+
+ORACLES = {"valid_pub": valid_pub, "crc16_xmodem": crc16_xmodem}
